@@ -198,10 +198,10 @@ func Load(o LoadOpts) (*Prog, error) {
 		env = append(env, "GOARCH="+o.GOARCH)
 	}
 	cfg := &packages.Config{
-		Mode:  packages.LoadAllSyntax,
-		Dir:   dir,
-		Env:   env,
-		Tests: false,
+		Mode:    packages.LoadAllSyntax,
+		Dir:     dir,
+		Env:     env,
+		Tests:   false,
 		Overlay: o.Overlay,
 	}
 	if o.Tags != "" {
